@@ -24,6 +24,10 @@ def run(repo, tier) -> Result:
     check_merge("C11", res, repo)
     check_tasks_order("C11", res, repo, need=(("collapse", "convert"), ("convert", "trim")))
     check_append_order("C11", res, repo)
+    # with a candlestick type the other timeframes must collapse *raw* candles (the default manager converts in place)
+    from ..ownership import check_raw_copies
+
+    check_raw_copies("C11", res, repo)
     # the candlestick type object is shared by every manager of a Hexital: it must stay stateless
     eff = Effects(repo)
     for mod, cls, nm in (("hexital.core.candlestick_type", "CandlestickType", "conversion"), ("hexital.core.candlestick_type", "CandlestickType", "_find_conv_index"), ("hexital.candlesticks.heikinashi", "HeikinAshi", "convert_candle")):
